@@ -7,6 +7,7 @@ import (
 	"errors"
 	"fmt"
 	"math/rand"
+	"strings"
 
 	"github.com/csgura/fp"
 )
@@ -275,6 +276,13 @@ func effNames(monad, kind string, n int, fin string) []string {
 	case "supp":
 		if n == 2 && fin == "vs" {
 			r = append(r, "ApFunc")
+		}
+		if strings.ContainsAny(fin, "km") {
+			// FlatMap / Map stages exist on the ChainN builders only
+			if builders && (n == 2 || n == 3) {
+				r = append(r, fmt.Sprintf("Chain%d", n))
+			}
+			break
 		}
 		if builders && n >= 1 && n <= 4 {
 			r = append(r, fmt.Sprintf("Applicative%d", n), fmt.Sprintf("Chain%d", n))
